@@ -46,8 +46,43 @@ def cfg(suites, guard="variables", invariants=INVARIANTS):
 
 
 # Suites (bounds are defined in spec/I18n.tla, operator Params); each is exhaustive within its bounds.
-QUICK = ["q_text", "q_plural", "q_header", "q_trim", "q_trimpl", "q_context", "q_calls"]
-THOROUGH = ["t_text", "t_text2", "t_plural", "t_trim", "t_trimpl", "t_context", "t_calls"]
+QUICK = ["q_text", "q_plural", "q_header", "q_trim", "q_trimpl", "q_context", "q_options", "q_calls"]
+THOROUGH = ["t_text", "t_text2", "t_plural", "t_trim", "t_trimpl", "t_context", "t_options", "t_calls"]
+
+# Syntax / whitespace options of the environment a case is run under.  ONE dictionary per
+# profile is the source of both the rendering Environment and the options handed to
+# babel_extract, so extraction is always asked for exactly the rendering environment's
+# combination of every option babel_extract reads (delimiters, line prefixes, trim_blocks,
+# lstrip_blocks, keep_trailing_newline, trimmed, newstyle_gettext, extensions).  The `alt`
+# delimiters / prefixes cannot be formed by the text fragments of the spec; its
+# trim_blocks / lstrip_blocks are switched on only for blocks the spec marks ws_inert.
+PROFILES = {
+    "default": {},
+    "alt": dict(block_start_string="[%", block_end_string="%]", variable_start_string="[[",
+                variable_end_string="]]", comment_start_string="[#", comment_end_string="#]",
+                line_statement_prefix="@@", line_comment_prefix="@#", keep_trailing_newline=True),
+}
+OPTION_SUITES = ("q_options", "t_options")
+
+
+def syntax_options(profile, ws_inert):
+    o = dict(PROFILES[profile])
+    if profile == "alt" and ws_inert:
+        o.update(trim_blocks=True, lstrip_blocks=True)
+    return o
+
+
+def write_source(items, o):
+    d = {"{%": o.get("block_start_string", "{%"), "%}": o.get("block_end_string", "%}"),
+         "{{": o.get("variable_start_string", "{{"), "}}": o.get("variable_end_string", "}}")}
+    return "".join(d.get(x, x) for x in items)
+
+
+def babel_options(o, policy, new):
+    b = {k: (str(v).lower() if isinstance(v, bool) else v) for k, v in o.items()}
+    b.update(extensions="jinja2.ext.i18n", trimmed=str(policy).lower(), newstyle_gettext=str(new).lower(),
+             silent="false")
+    return b
 
 
 # --------------------------------------------------------------------------
@@ -78,12 +113,12 @@ def _npgettext(c, s, p, n):
     return s if n == 1 else p
 
 
-def _env(autoescape, newstyle, policy):
-    key = (autoescape, newstyle, policy)
+def _env(autoescape, newstyle, policy, o):
+    key = (autoescape, newstyle, policy, tuple(sorted(o.items())))
     e = _ENVS.get(key)
     if e is None:
         from jinja2 import Environment
-        e = Environment(extensions=["jinja2.ext.i18n"], autoescape=autoescape, cache_size=0)
+        e = Environment(extensions=["jinja2.ext.i18n"], autoescape=autoescape, cache_size=0, **o)
         e.policies["ext.i18n.trimmed"] = policy
         e.install_gettext_callables(_gettext, _ngettext, newstyle=newstyle,
                                     pgettext=_pgettext, npgettext=_npgettext)
@@ -133,21 +168,41 @@ def _strings(func, args):
     return [args[i] for i in _MSG_POS[func] if i < len(args)]
 
 
+def profiles_for(c, line):
+    """default always; the alternative syntax options for the option-matrix suites and a
+    deterministic eighth of all other cases"""
+    if c.get("suite") in OPTION_SUITES or (hash(line) & 7) == 0:
+        return ("default", "alt")
+    return ("default",)
+
+
 def check_case(line):
     """Returns (n_renders, problems, sample) for one case printed by TLC."""
+    c = json.loads(line)
+    n = 0
+    probs = []
+    for profile in profiles_for(c, line):
+        k, p = check_case_under(c, profile)
+        n += k
+        probs += p
+    return n, probs, {"src": "".join(c["src"]), "feat": c["feat"]}
+
+
+def check_case_under(c, profile):
     from jinja2.ext import GETTEXT_FUNCTIONS, babel_extract
 
-    c = json.loads(line)
-    src = "".join(c["src"])
+    o = syntax_options(profile, c["feat"]["ws_inert"])
+    src = write_source(c["src"], o)
     policy = c["policy"]
     probs = []
     data = {d["w"]: (d["vals"] if isinstance(d["vals"], dict) else {}) for d in c["data"]}
     n = 0
     outs = {}
-    # ---- extraction (per gettext style)
+    tag = "" if profile == "default" else f"[{profile} syntax options {o}] {src!r}: "
+    # ---- extraction (per gettext style), with exactly the options of the rendering environment
     real_ex = {}
     for style, new in (("old", False), ("new", True)):
-        env = _env(False, new, policy)
+        env = _env(False, new, policy, o)
         exp = c["extracted"][style]
         exp_msgs = [_arg_py(a) for a in exp["msgs"]]
         got = {}
@@ -158,29 +213,27 @@ def check_case(line):
         try:
             got["babel_extract"] = [
                 (l, f, _norm_msg(m)) for l, f, m, _c in babel_extract(
-                    io.BytesIO(src.encode("utf-8")), GETTEXT_FUNCTIONS, [],
-                    {"extensions": "jinja2.ext.i18n", "trimmed": str(policy).lower(),
-                     "newstyle_gettext": str(new).lower(), "silent": "false"})]
+                    io.BytesIO(src.encode("utf-8")), GETTEXT_FUNCTIONS, [], babel_options(o, policy, new))]
         except Exception as e:  # noqa
             got["babel_extract"] = e
         real_ex[style] = got
         for api, g in got.items():
             if isinstance(g, Exception):
-                probs.append(("V", "extract-raises", style, f"{api} raised {type(g).__name__}: {g}", type(g).__name__))
+                probs.append(("V", "extract-raises", style, f"{tag}{api} raised {type(g).__name__}: {g}", type(g).__name__))
                 continue
             exp_strs = [m for m in exp_msgs if m is not None]
             hit = [x for x in g if x[1] == exp["f"] and [m for m in x[2] if m is not None] == exp_strs]
             if not hit:
                 probs.append(("D" if c["kind"] == "trans" else "V", "extract-msg", style,
-                              f"{api}: expected {exp['f']}{exp_msgs!r} among extracted, got {g!r}", ""))
+                              f"{tag}{api}: expected {exp['f']}{exp_msgs!r} among extracted, got {g!r}", ""))
             elif not any(x[0] == exp["line"] and x[2] == exp_msgs for x in hit):
                 probs.append(("D", "extract-shape", style,
-                              f"{api}: expected ({exp['line']}, {exp['f']}, {exp_msgs!r}), got {g!r}", ""))
+                              f"{tag}{api}: expected ({exp['line']}, {exp['f']}, {exp_msgs!r}), got {g!r}", ""))
     # ---- rendering
     for r in c["runs"]:
         ae, new, w = r["autoescape"], r["newstyle"], r["w"]
         style = "new" if new else "old"
-        env = _env(ae, new, policy)
+        env = _env(ae, new, policy, o)
         del _REC[:]
         n += 1
         exc = None
@@ -190,7 +243,7 @@ def check_case(line):
             out = None
             exc = e
         calls = list(_REC)
-        where = f"autoescape={ae} {style}-style data#{w}"
+        where = f"{tag}autoescape={ae} {style}-style data#{w}"
         if c["kind"] == "trans":
             if not r["ok"]:
                 raise core.MachineryError(f"spec emitted a case without defined output: {src!r}")
@@ -233,8 +286,8 @@ def check_case(line):
                                   f"{where}: {gf}{gargs!r} was called at render time but {api} yields {g!r}", api))
     for (ae, w), d in outs.items():
         if len(d) == 2 and d["old"] != d["new"]:
-            probs.append(("V", "old-new", "both", f"autoescape={ae} data#{w}: old style {d['old']!r} != new style {d['new']!r}", ""))
-    return n, probs, {"src": src, "feat": c["feat"]}
+            probs.append(("V", "old-new", "both", f"{tag}autoescape={ae} data#{w}: old style {d['old']!r} != new style {d['new']!r}", ""))
+    return n, probs
 
 
 def _work(lines):
